@@ -117,6 +117,30 @@ retry:
 	return errors.Wrap(s.client.PosixRename(tmpfile, name), "sftp:renaming "+tmpfile+" to "+name)
 }
 
+// isTempFile returns true if the path is that of a temporary file StoreObject
+// creates while uploading a chunk to this store: the name of the chunk file
+// followed by a random number.
+func (s *SFTPStoreBase) isTempFile(p string) bool {
+	ext := CompressedChunkExt
+	if s.opt.Uncompressed {
+		ext = UncompressedChunkExt
+	}
+	base := path.Base(p)
+	n := 2*len(ChunkID{}) + len(ext)
+	if len(base) <= n || base[n-len(ext):n] != ext {
+		return false
+	}
+	if _, err := ChunkIDFromString(base[:n-len(ext)]); err != nil {
+		return false
+	}
+	for _, c := range base[n:] {
+		if c < '0' || c > '9' {
+			return false
+		}
+	}
+	return true
+}
+
 // Close terminates all client connections
 func (s *SFTPStoreBase) Close() error {
 	if s.cancel != nil {
@@ -239,6 +263,11 @@ func (s *SFTPStore) Prune(ctx context.Context, ids map[ChunkID]struct{}) error {
 			continue
 		}
 		path := walker.Path()
+		// Remove temporary files an interrupted upload of a chunk left behind
+		if c.isTempFile(path) {
+			_ = c.client.Remove(path)
+			continue
+		}
 		// Skip compressed chunks if this is running in uncompressed mode and vice-versa
 		var sID string
 		if c.opt.Uncompressed {
